@@ -17,6 +17,8 @@ func lemmaObligations(s *Session, prop, tier string) ([]*Obligation, []interface
 		obls = append(obls, poolLemmaObligations([]string{prop})...)
 	}
 	switch prop {
+	case "C01":
+		obls = append(obls, s.conversionRoundTripLemmas()...)
 	case "C06":
 		obls = append(obls, s.lemmasC06()...)
 	case "C07":
